@@ -58,6 +58,17 @@ func execOp(line string) (res string) {
 		}
 		return b
 	}
+	// the message hash is handed to the library in ONE buffer that the harness re-uses for every call, as callers that
+	// hash into a fixed array do (a library that keeps the slice instead of its contents sees it change)
+	Hb := func(i int) []byte {
+		b := B(i)
+		if len(b) > len(hashArena) {
+			return b
+		}
+		copy(hashArena[:], b)
+		return hashArena[:len(b):len(b)]
+	}
+	_ = Hb
 	Nn := func(i int) *big.Int {
 		n, ok := unnat(a[i])
 		if !ok {
@@ -275,16 +286,51 @@ func execOp(line string) (res string) {
 		if !argc(2) {
 			return bad
 		}
-		sig, err := privOf(Nn(0)).Sign(B(1))
+		sig, err := privOf(Nn(0)).Sign(Hb(1))
 		if err != nil {
 			return "err"
 		}
 		// determinism: a second call must give the same pair
-		sig2, err2 := privOf(Nn(0)).Sign(B(1))
+		sig2, err2 := privOf(Nn(0)).Sign(Hb(1))
 		if err2 != nil || !sig.IsEqual(sig2) {
 			return "nondeterministic"
 		}
 		return "ok " + nhx(sig.R) + " " + nhx(sig.S)
+	case "sign.seq":
+		// ONE key object, several messages in a row, each written into the same caller-owned buffer; the signatures are
+		// kept and printed after the last call, each also checked against the hash it was made for
+		if !argc(2) {
+			return bad
+		}
+		priv := privOf(Nn(0))
+		var buf [64]byte
+		out := "ok"
+		type kept struct {
+			sig *bec.Signature
+			h   []byte
+		}
+		var ks []kept
+		for _, hh := range strings.Split(a[1], ",") {
+			h, ok := unhex(hh)
+			if !ok || len(h) > len(buf) {
+				return bad
+			}
+			n := copy(buf[:], h)
+			sig, err := priv.Sign(buf[:n])
+			if err != nil {
+				ks = append(ks, kept{nil, h})
+				continue
+			}
+			ks = append(ks, kept{sig, append([]byte{}, h...)})
+		}
+		for _, k := range ks {
+			if k.sig == nil {
+				out += " e"
+			} else {
+				out += " " + nhx(k.sig.R) + ":" + nhx(k.sig.S)
+			}
+		}
+		return out
 	case "verify":
 		if !argc(5) {
 			return bad
@@ -814,6 +860,8 @@ func execOp(line string) (res string) {
 	}
 	return bad
 }
+
+var hashArena [96]byte
 
 // extraOps: ops registered by other files of the harness (field.*, jac.*, mem.* ...)
 var extraOps = map[string]func(a []string) string{}
